@@ -1319,7 +1319,7 @@ func main() {
 		h1harness.WorkerMain(4, 180*time.Second, func(idx int) *h1harness.CaseResult { return runCase(&list[idx]) })
 		return
 	}
-	rep := lib.NewReport("C01", "exploration")
+	rep := lib.NewReport("C01", "model_checking")
 	agg := h1harness.RunAll(16, len(list), lib.Root+"/.build/c01/work", func(idx int, stderr string) (string, string, interface{}) {
 		s := &list[idx]
 		return classOf(s, s.Conns[0][0]) + ":crash", fmt.Sprintf("scenario %s terminates the proxy process: %s", describe(s), tail(stderr, 1500)), s
